@@ -15,7 +15,8 @@ DRIVER = "Driver/C09.lean"
 OBLIGATIONS = ["NiftyVerif.C09." + t for t in (
     "dft_orthogonal", "fft_zero_mode_is_integral", "fft_modes_consistent", "hartley_symmetric",
     "hartley_is_matrix", "hartley_involutive_up_to_n", "hartley3_involutive_up_to_n",
-    "hartley_modes_consistent", "hartley_complex_split", "smoothing_sigma0_id", "rg_dvol_product")]
+    "hartley_modes_consistent", "hartley_complex_split", "smoothing_sigma0_id", "rg_dvol_product",
+    "smoothing_is_fourier_convolution", "subspace_transform_onAxis", "subspace_hartley_onAxis")]
 RULE = ("operator cases: product domains of 1-3 spaces, transformed RGSpace of 1-3 dims (axis lengths 1..6), "
         "position/harmonic domain, default or explicit codomain, FFTOperator/HartleyOperator (4 modes) and "
         "HarmonicTransformOperator (2 modes), both hartley conventions, real/complex integer input (random + basis "
@@ -55,9 +56,11 @@ def _build_op(case):
         return None, U.err_kind(e)
 
 
-def _field(dom, vals, cplx):
+def _field(dom, vals, cplx, single=False):
     import nifty.cl as ift
     a = np.array([complex(r, i) for r, i in vals]) if cplx else np.array([float(r) for r, _ in vals])
+    if single:
+        a = a.astype(np.complex64 if cplx else np.float32)
     return ift.Field(dom, a.reshape(dom.shape))
 
 
@@ -72,7 +75,7 @@ def _apply_real(case):
             if mode not in MODES:
                 op._check_mode(mode)
             dom = op._dom(mode)
-            x = _field(dom, case["x"], case["cplx"])
+            x = _field(dom, case["x"], case["cplx"], case.get("single", False))
             return op.apply(x, mode).asnumpy()
         except Exception as e:
             return U.err_kind(e)
@@ -116,11 +119,13 @@ def _is_exact(case):
 # oracle: the property on the real code only
 # ======================================================================================================
 
-def _rand_field(rng, dom, cplx):
+def _rand_field(rng, dom, cplx, single=False):
     import nifty.cl as ift
     a = rng.integers(-9, 10, size=dom.shape).astype(float)
     if cplx:
         a = a + 1j * rng.integers(-9, 10, size=dom.shape)
+    if single:
+        a = a.astype(np.complex64 if cplx else np.float32)
     return ift.Field(dom, a)
 
 
@@ -134,11 +139,15 @@ def _oracle_op(case):
         space = case["space"]
         rng = np.random.default_rng(case.get("oseed", 0))
         caps = [m for m in MODES if op.capability & m]
-        tol = 1e-9
+        single = bool(case.get("single", False))
+        tol = 2e-4 if single else 1e-9
         try:
-            for cplx in ((True,) if case["kind"] == "fft" else (False, True)):
-                x = _rand_field(rng, op.domain, cplx)
-                y = _rand_field(rng, op.target, cplx)
+            for cplx in ((False, True) if case["kind"] == "fft" else (False, True)):
+                x = _rand_field(rng, op.domain, cplx, single)
+                y = _rand_field(rng, op.target, cplx, single)
+                if single and op.apply(x, 1).asnumpy().dtype not in (np.float32, np.complex64):
+                    return (f"{case['kind']}: single-precision input gives {op.apply(x, 1).asnumpy().dtype} output",
+                            dict(sig, kind="dtype"))
                 Tx = op.apply(x, 1)
                 Ay = op.apply(y, 2)
                 # <y, T x> = <T^H y, x>
@@ -199,6 +208,12 @@ def _oracle_op(case):
                     else:
                         if np.iscomplexobj(Tx.asnumpy()):
                             return ("hartley: real input gives complex output", dict(sig, kind="hartley-real"))
+                if case["kind"] == "fft" and not cplx:
+                    # real input = complex input with zero imaginary part
+                    r2 = op.apply(x + 0j * x, 1)
+                    e = float(np.max(np.abs((r2 - Tx).asnumpy())))
+                    if e > tol * (1 + float(np.max(np.abs(Tx.asnumpy())))):
+                        return ("fft: real input is not transformed like the same complex input", dict(sig, kind="fft-real"))
         except Exception as e:
             return (f"{case['kind']}: {type(e).__name__} on a valid operator/input: {e}",
                     dict(sig, kind="exception", error=type(e).__name__))
@@ -225,6 +240,8 @@ def _backend_array(case):
     a = np.array([complex(r, i) for r, i in case["x"]]).reshape(case["shape"])
     if not case["cplx"]:
         a = a.real.copy()
+    if case.get("single"):
+        a = a.astype(np.complex64 if case["cplx"] else np.float32)
     return a
 
 
@@ -250,7 +267,8 @@ def _oracle_backend(case):
                             f"{names[j]} -> {v if isinstance(v, dict) else 'ok'}",
                             dict(sig, kind="backend-error", pair=[names[i], names[j]]))
                 continue
-            ok, err = U.close(u, v, scale=float(np.max(np.abs(u))) + float(np.max(np.abs(v))))
+            ok, err = U.close(u, v, scale=float(np.max(np.abs(u))) + float(np.max(np.abs(v))),
+                              rtol=2e-5 if case.get("single") else U.RTOL)
             if not ok:
                 return (f"{case['fn']} ({case['conv']}): backends {names[i]} and {names[j]} disagree (rel err {err:.3g})",
                         dict(sig, kind="backend-mismatch", pair=[names[i], names[j]]))
@@ -401,15 +419,15 @@ def _dist(rng, exact):
     return rng.choice([0.1, 0.3, 0.7, 1.0, 1.3, 2.5, 0.05, 3.0]) * rng.choice([1.0, 1.0, 0.37, 1.9])
 
 
-def _gen_rg(rng, exact, maxcells):
-    for _ in range(50):
+def _gen_rg(rng, exact, maxcells, shape=None):
+    for _ in range(50 if shape is None else 0):
         nd = rng.choice([1, 1, 2, 2, 3])
         lens = (1, 2, 4) if exact else (1, 2, 3, 4, 5, 6)
         shape = [rng.choice(lens) for _ in range(nd)]
         if 1 < int(np.prod(shape)) <= maxcells or (rng.random() < 0.05 and int(np.prod(shape)) == 1):
             break
     else:
-        shape = [2]
+        shape = list(shape) if shape is not None else [2]
     style = rng.random()
     if style < 0.15:
         dist = None
@@ -427,11 +445,11 @@ def _gen_other(rng, exact):
     return dict(kind="rg", shape=[rng.choice([2, 3])], dist=[_dist(rng, exact)], harmonic=rng.random() < 0.3)
 
 
-def _gen_spaces(rng, exact, maxcells=30, maxtotal=60, k=None, space=None):
+def _gen_spaces(rng, exact, maxcells=30, maxtotal=60, k=None, space=None, shape=None):
     for _ in range(200):
         kk = k if k is not None else rng.choice([1, 1, 2, 2, 3])
         sp = space if space is not None else rng.randrange(kk)
-        spaces = [(_gen_rg(rng, exact, maxcells) if i == sp else _gen_other(rng, exact)) for i in range(kk)]
+        spaces = [(_gen_rg(rng, exact, maxcells, shape) if i == sp else _gen_other(rng, exact)) for i in range(kk)]
         tot = 1
         for d in spaces:
             tot *= int(np.prod(d["shape"]))
@@ -440,7 +458,10 @@ def _gen_spaces(rng, exact, maxcells=30, maxtotal=60, k=None, space=None):
     return [dict(kind="rg", shape=[4], dist=[0.5], harmonic=False)], 0
 
 
-SWEEP = [(kind, k, sp) for kind in ("fft", "hartley", "htop") for k in (1, 2, 3) for sp in range(k)]
+SWEEP = [(kind, k, sp, None) for kind in ("fft", "hartley", "htop") for k in (1, 2, 3) for sp in range(k)]
+# unit axes (length-1 axes broadcast trivially; the volume factor must still be applied)
+SWEEP += [("fft", 1, 0, [1]), ("hartley", 2, 1, [1, 1]), ("hartley", 1, 0, [1, 3]), ("fft", 2, 0, [4, 1]),
+          ("htop", 2, 1, [1]), ("hartley", 1, 0, [2, 1, 1])]
 
 
 def _gen_x(rng, size, cplx, basis):
@@ -462,7 +483,7 @@ def _gen_op_cases(rng, n_cfg, exact_share, sweeps=0):
             kind = rng.choice(["fft", "hartley", "hartley", "htop"])
         else:
             kind = f[0]
-            spaces, space = _gen_spaces(rng, exact, maxcells=16, maxtotal=40, k=f[1], space=f[2])
+            spaces, space = _gen_spaces(rng, exact, maxcells=16, maxtotal=40, k=f[1], space=f[2], shape=f[3])
         if kind == "htop":
             spaces[space]["harmonic"] = True if rng.random() < 0.93 else spaces[space]["harmonic"]
         tgt = None
@@ -475,6 +496,7 @@ def _gen_op_cases(rng, n_cfg, exact_share, sweeps=0):
         size = 1
         for d in spaces:
             size *= int(np.prod(d["shape"]))
+        single = rng.random() < 0.25
         for conv in U.CONVS if kind != "fft" else (rng.choice(U.CONVS),):
             modes = MODES if kind != "htop" else (1, 2)
             for mode in modes:
@@ -482,7 +504,7 @@ def _gen_op_cases(rng, n_cfg, exact_share, sweeps=0):
                     cplx = (rng.random() < 0.75) if kind == "fft" else (rng.random() < 0.4)
                     cases.append(dict(t="op", kind=kind, spaces=spaces, space=space, tgt=tgt, mode=mode, conv=conv,
                                       cplx=cplx, x=_gen_x(rng, size, cplx, basis), oseed=rng.randrange(1 << 30),
-                                      cfg=c))
+                                      cfg=c, single=single))
     return cases
 
 
@@ -523,8 +545,9 @@ def _gen_backend_cases(rng, n):
         fn = rng.choice(["fftn", "ifftn", "hartley", "hartley"])
         cplx = fn != "hartley" and rng.random() < 0.7
         size = int(np.prod(shape))
+        single = rng.random() < 0.25
         for conv in (U.CONVS if fn == "hartley" else (U.CONVS[0],)):
-            cases.append(dict(t="backend", fn=fn, shape=shape, axes=axes, conv=conv, cplx=cplx,
+            cases.append(dict(t="backend", fn=fn, shape=shape, axes=axes, conv=conv, cplx=cplx, single=single,
                               x=_gen_x(rng, size, cplx, rng.random() < 0.3)))
     return cases
 
@@ -577,7 +600,7 @@ def _compare_arrays(ctx, case, impl, mout, exact, note, nontrivial):
                            note=note + " [class E, exact]", nontrivial=nontrivial)
     ctx.stat("class:T")
     mv = np.array(U.eval_entries(mout, False))
-    ok, err = U.close(impl, mv)
+    ok, err = U.close(impl, mv, rtol=2e-5 if case.get("single") else U.RTOL)
     ctx.case(case, nontrivial)
     if not ok:
         ctx.disagree(case, dict(values=[str(v) for v in np.asarray(impl).reshape(-1)[:8]], relerr=err),
@@ -661,6 +684,9 @@ def run(ctx):
         ctx.stat(f"kind:{c['kind']}"); ctx.stat(f"mode:{c['mode']}"); ctx.stat(f"ndim:{len(sp['shape'])}")
         ctx.stat(f"nspaces:{len(c['spaces'])}"); ctx.stat("dom:harmonic" if sp.get("harmonic") else "dom:position")
         ctx.stat("conv:" + c["conv"][:5]); ctx.stat("input:complex" if c["cplx"] else "input:real")
+        ctx.stat("dtype:single" if c.get("single") else "dtype:double")
+        if 1 in sp["shape"]:
+            ctx.stat("unit-axis")
         if c.get("tgt"):
             ctx.stat("target:explicit")
         _compare_arrays(ctx, _strip(c), impl, mout, exact,
@@ -704,7 +730,7 @@ def run(ctx):
                     if isinstance(v, dict):
                         ctx.disagree(cc, v, {"ok": True}, f"{name} {c['fn']} raised on valid input")
                     else:
-                        ok, err = U.close(v, ref)
+                        ok, err = U.close(v, ref, rtol=2e-5 if c.get("single") else U.RTOL)
                         if not ok:
                             ctx.disagree(cc, dict(relerr=err), {"ok": True}, f"{name} {c['fn']} vs explicit O(n^2) sums [class T]")
         r = oracle(c)
